@@ -773,6 +773,7 @@ class OnionRun(object):
         self.own_emitted = 0
         self.g_all_failed = True
         self.g_await_last_failed = True
+        self.g_await_pre_failed = True
         self.force_all_failed = False
         self.hold_resolutions = False
         self.proto = None
@@ -968,6 +969,10 @@ class OnionRun(object):
             # recorded defect behind this gate: never let "every attempt so far failed" become true
             if not any(b['state'] >= 1 and b['post'] and not (b['state'] == 2 and self.outcome_of(b) == 'FAILED') for b in others):
                 return False
+        if self.await_all and not self.g_await_pre_failed and not a['post'] and self.reply_end is not None:
+            # recorded defect: a FAILED (delivered after the reply) for an upload announced before the reply is counted
+            # against the uploads announced after it
+            return False
         if self.await_all and not self.g_await_last_failed:
             succeeded = any(b['state'] == 2 and self.outcome_of(b) == 'UPLOADED' for b in others)
             if succeeded and not any(b['state'] < 2 and self.outcome_of(b) == 'UPLOADED' for b in others):
@@ -1044,6 +1049,9 @@ class OnionRun(object):
             out.append((frozenset(ap), frozenset(aa), frozenset(okd), frozenset(fl)))
         return out
 
+    def own_kinds(self):
+        return [e.kind for e in self.delivered_events() if e.tag == 'own']
+
     def foreign_uploaded_on_own_dir(self):
         """a foreign UPLOADED was delivered for a directory for which an own UPLOAD had been delivered before it"""
         own_dirs = set()
@@ -1098,6 +1106,7 @@ class C15Run(OnionRun):
         self.g_foreign = sim.gate('foreign-upload-shared-directory')
         self.g_all_failed = sim.gate('all-uploads-failed')
         self.g_await_last_failed = sim.gate('await-all-last-event-failed')
+        self.g_await_pre_failed = sim.gate('await-all-failed-for-pre-reply-upload')
         self.g_reject = sim.gate('creating-command-rejected')
         self.g_auth_discard = sim.gate('auth-service-discard-key')
         self.kind = ['eph', 'fs'][ch.weighted([3, 2], 'kind')]
@@ -1307,6 +1316,13 @@ class C15Run(OnionRun):
             if alive and self.reply_code == 250 and no_pre and final is not None:
                 ap, aa, okd, fl = final
                 desc = 'own events, all delivered after the 250 reply: attempted %d, uploaded %d, failed %d' % (len(ap), len(okd), len(fl))
+                done_ok = bool(okd & ap) if not self.await_all else bool(okd and ap and ap <= (okd | fl))
+                if self.auth and self.keyform == 'discard' and (done_ok or (ap and ap <= fl)):
+                    self.fail('C15.create-pending-authenticated-service-discarded-key',
+                              'EphemeralAuthenticatedOnionService.create(private_key=DISCARD) is still pending at quiescence although '
+                              '%s after the reply: the listener identifies the service by the permanent id computed from its private key, '
+                              'which was never learnt, so every HS_DESC event raises inside the listener; %s' % (
+                                  'the awaited UPLOADED event(s) of the service were delivered' if done_ok else 'every attempted upload failed', desc))
                 if ap and ap <= fl:
                     self.fail('C15.create-pending-after-all-uploads-failed',
                               'every attempted upload of the service failed but create() (%s) neither failed nor completed; %s' % (self.api, desc))
@@ -1315,10 +1331,20 @@ class C15Run(OnionRun):
                               'an UPLOADED event of this service was delivered after the reply but create() (%s, key %s) is still '
                               'pending at quiescence; %s' % (self.api, self.keyform, desc))
                 if self.await_all and okd and ap and ap <= (okd | fl):
-                    if own_res[-1].kind == 'FAILED':
+                    d = self.foreign_uploaded_on_own_dir()
+                    # was everything resolved (with a success) right after one of our own UPLOADED events?  Then the
+                    # "last event was a FAILED" defect is not what keeps it pending.
+                    at_uploaded = any(k == 'UPLOADED' and o and a <= (o | f) for k, (a, _, o, f) in zip(self.own_kinds(), hist))
+                    if d is not None and at_uploaded:
+                        self.fail('C15.foreign-uploaded-blocks-await-all',
+                                  'create(await_all_uploads=True) (%s) is still pending at quiescence although every attempted upload is '
+                                  'resolved and at least one succeeded; a FOREIGN service\'s UPLOADED for directory #%d, to which we had an '
+                                  'upload pending, was counted as ours (UPLOADED is matched on the directory only) and our own later result '
+                                  'for that directory made the counts disagree for good; %s' % (self.api, HSDIRS.index(d), desc))
+                    if not at_uploaded:
                         self.fail('C15.await-all-never-completes-final-failed',
                                   'create(await_all_uploads=True) (%s) is still pending at quiescence although every attempted upload is '
-                                  'resolved and at least one succeeded; the last resolving event was a FAILED; %s' % (self.api, desc))
+                                  'resolved and at least one succeeded; whenever that became true the deciding event was a FAILED; %s' % (self.api, desc))
                     self.fail('C15.create-pending-after-all-resolved',
                               'create(await_all_uploads=True) (%s, key %s) is still pending at quiescence although every attempted upload is '
                               'resolved and at least one succeeded; %s' % (self.api, self.keyform, desc))
@@ -1336,6 +1362,793 @@ class C15Run(OnionRun):
             self.fail('C15.completed-twice', 'a Deferred of the descriptor wait was fired a second time (%d AlreadyCalledError)' % sim.already_called)
         if w.fired > 1:
             self.fail('C15.completed-twice', 'create() fired %d times' % w.fired)
+
+
+
+# ---------------------------------------------------------------------------
+# C14
+# ---------------------------------------------------------------------------
+
+PORT_FORMS = ['int', 'pair', 'string', 'pair-unix', 'string-unix', 'pair-addr']
+
+
+class C14Run(OnionRun):
+
+    def draw_service(self, idx):
+        ch = self.ch
+        c = dict(idx=idx)
+        c['api'] = ['eph', 'auth', 'tor'][ch.weighted([4, 3, 3], 'api')]
+        c['version'] = ch.pick([2, 3], 'version')
+        c['keyform'] = ['none', 'discard', 'bare', 'prefixed', 'crlf'][ch.weighted([3, 2, 2, 2, 1], 'keyform')]
+        c['detach'] = ch.chance(1, 3, 'detach')
+        c['single_hop'] = ch.chance(1, 4, 'singlehop')
+        c['clients'] = None
+        if c['api'] == 'auth':
+            n = ch.draw(4, 'nclients')
+            c['clients'] = [(CLIENT_NAMES[k], CLIENT_BLOBS[k % len(CLIENT_BLOBS)] if ch.chance(1, 2, 'token') else None)
+                            for k in range(n)]
+        nports = 1 + ch.draw(3, 'nports')
+        c['ports'] = []
+        for k in range(nports):
+            form = PORT_FORMS[ch.weighted([3, 3, 3, 1, 1, 1], 'pform')]
+            virt = [80, 443, 8080][k] + idx
+            local = 9000 + 10 * idx + k
+            c['ports'].append((form, virt, local))
+        c['crlf'] = ch.pick(['\n', '\r\n', '\r'], 'crlf') if c['keyform'] == 'crlf' else None
+        c['crlf_prefixed'] = ch.chance(1, 2, 'crlfp') if c['keyform'] == 'crlf' else False
+        c['n_dirs'] = 1 + ch.draw(3, 'ndirs')
+        c['early'] = ch.chance(1, 3, 'early')
+        return c
+
+    def cell(self, c):
+        if c['clients'] is None:
+            a = 'none'
+        else:
+            a = 'basic%d:%s' % (len(c['clients']), ''.join('t' if b else 'n' for _, b in c['clients']))
+        return (c['api'], c['version'], c['keyform'], c['detach'], c['single_hop'], a, tuple(f for f, _, _ in c['ports']))
+
+    def _run(self):
+        sim, ch = self.sim, self.ch
+        n_services = 1 + (1 if ch.chance(1, 3, 'two') else 0)
+        cfgs = [self.draw_service(i) for i in range(n_services)]
+        sim.cells = set(self.cell(c) for c in cfgs)
+        tor = self.build_tor()
+        tor.non_anonymous = cfgs[0]['single_hop'] if ch.chance(7, 8, 'anonmode') else not cfgs[0]['single_hop']
+        tor.onions_empty_is_error = ch.chance(1, 2, 'emptyerr')
+        self.boot()
+        self.boot_config()
+        self.conn.seg_mode = ch.pick(['whole', 'mixed', 'mixed'], 'segmode')
+        sim.add_source(self.hs_actions)
+        self.expected_add = 0
+        self.expected_del = 0
+        for c in cfgs:
+            if c['idx'] == 1:
+                sim.probe('second-service')
+            self.one_service(c)
+        self.drain()
+        n_add = sum(1 for l in tor.received if l.split(' ', 1)[0].upper() == 'ADD_ONION')
+        n_del = sum(1 for l in tor.received if l.split(' ', 1)[0].upper() == 'DEL_ONION')
+        if n_add != self.expected_add:
+            self.fail('C14.add-onion-count', '%d ADD_ONION commands reached Tor for %d creations that should send one' % (n_add, self.expected_add))
+        if n_del != self.expected_del:
+            self.fail('C14.del-onion-count', '%d DEL_ONION commands reached Tor for %d removals' % (n_del, self.expected_del))
+
+    # ------------------------------------------------------------------------------------------------
+    def key_argument(self, c):
+        from txtorcon.onion import DISCARD
+        v, kf, i = c['version'], c['keyform'], c['idx']
+        blob = RSA_KEYS[USER_RSA[i]][0] if v == 2 else USER_V3[i]
+        prefix = 'RSA1024:' if v == 2 else 'ED25519-V3:'
+        if kf == 'none':
+            return None, ('NEW', 'BEST' if v == 2 else 'ED25519-V3')
+        if kf == 'discard':
+            return DISCARD, ('NEW', 'BEST' if v == 2 else 'ED25519-V3')
+        if kf == 'bare':
+            return blob, (prefix[:-1], blob)
+        if kf == 'prefixed':
+            return prefix + blob, (prefix[:-1], blob)
+        broken = blob[:24] + c['crlf'] + blob[24:]
+        return (prefix + broken) if c['crlf_prefixed'] else broken, None
+
+    def ports_argument(self, c):
+        arg, expect = [], {}
+        for form, virt, local in c['ports']:
+            self.sim.probe({'int': 'port-int', 'pair': 'port-pair', 'pair-addr': 'port-pair', 'string': 'port-string',
+                            'pair-unix': 'port-unix', 'string-unix': 'port-unix'}[form])
+            if form == 'int':
+                arg.append(virt)
+                expect[virt] = None                     # 127.0.0.1:<a port the reactor handed out>
+            elif form == 'pair':
+                arg.append((virt, local))
+                expect[virt] = '127.0.0.1:%d' % local
+            elif form == 'pair-addr':
+                arg.append((virt, '127.0.0.1:%d' % local))
+                expect[virt] = '127.0.0.1:%d' % local
+            elif form == 'string':
+                arg.append('%d 127.0.0.1:%d' % (virt, local))
+                expect[virt] = '127.0.0.1:%d' % local
+            elif form == 'pair-unix':
+                arg.append((virt, 'unix:/var/run/svc%d.sock' % local))
+                expect[virt] = 'unix:/var/run/svc%d.sock' % local
+            else:
+                arg.append('%d unix:/var/run/svc%d.sock' % (virt, local))
+                expect[virt] = 'unix:/var/run/svc%d.sock' % local
+        return arg, expect
+
+    def one_service(self, c):
+        from txtorcon import onion as O
+        sim, ch, tor = self.sim, self.ch, self.tor
+        # fresh per-creation state
+        self.events = []
+        self.own_svc = None
+        self.reply_code = self.reply_end = None
+        self.own_emitted = 0
+        self.reserve_last = True
+        tor.early_allowed = c['early']
+        self.early_quota = 1 + ch.draw(2, 'quota') if c['early'] else 0
+        rot = ch.draw(5, 'rot')
+        dirs = (HSDIRS[rot:5] + HSDIRS[:rot])[:c['n_dirs'] + (1 if c['early'] else 0)]
+        self.own_plan = self.make_plan('own', None, dirs, ['UPLOADED'] * len(dirs))
+        key, exp_key = self.key_argument(c)
+        ports, exp_ports = self.ports_argument(c)
+        sim.probe('v%d' % c['version'])
+        sim.probe('key-' + c['keyform'])
+        sim.probe('api-' + c['api'])
+        if c['detach']:
+            sim.probe('detach')
+        if c['single_hop']:
+            sim.probe('single-hop')
+        if c['clients'] is None:
+            sim.probe('auth-none')
+        elif not c['clients']:
+            sim.probe('auth-0-clients')
+        else:
+            sim.probe('auth-clients')
+            for _, b in c['clients']:
+                sim.probe('client-with-token' if b else 'client-without-token')
+        sim.log('op', 'create', c['idx'], self.cell(c))
+        recv0 = len(tor.received)
+        log0 = len(tor.add_onion_log)
+        w = Watch(self, 'create()#%d' % c['idx'])
+        if c['api'] == 'eph':
+            d = O.EphemeralOnionService.create(sim.reactor, self.config, ports, detach=c['detach'], private_key=key,
+                                               version=c['version'], single_hop=c['single_hop'])
+        elif c['api'] == 'auth':
+            clients = [(n, b) if b else n for n, b in c['clients']]
+            d = O.EphemeralAuthenticatedOnionService.create(sim.reactor, self.config, ports, detach=c['detach'], private_key=key,
+                                                            version=c['version'], auth=O.AuthBasic(clients),
+                                                            single_hop=c['single_hop'])
+        else:
+            d = self.tor_obj.create_onion_service(ports, private_key=key, version=c['version'], single_hop=c['single_hop'],
+                                                  detach=c['detach'])
+        w.attach(d)
+        self.after_step()
+        self.run_until(lambda: w.fired, self.P.get('max_steps', 500))
+        for _ in range(ch.draw(6, 'linger')):
+            if not self.step():
+                break
+        self.timing_probe()
+        what = 'creation #%d %r' % (c['idx'], self.cell(c))
+        adds = [l for l in tor.received[recv0:] if l.split(' ', 1)[0].upper() == 'ADD_ONION']
+        # ---- key material with line breaks: refused, nothing sent
+        if c['keyform'] == 'crlf':
+            if adds:
+                self.fail('C14.add-onion-sent-for-key-with-line-break', '%s: the key contains a line break, yet Tor received %r'
+                          % (what, [_short(a) for a in adds]))
+            if not w.fired or w.ok:
+                self.fail('C14.key-with-line-break-not-refused', '%s: create() %s' % (what, 'succeeded' if w.fired else 'is pending'))
+            return
+        self.expected_add += 1
+        if len(adds) != 1:
+            if not w.fired and not adds:
+                # nothing enabled any more and the command never left: a creation that sends nothing
+                self.fail('C14.add-onion-count', '%s: no ADD_ONION reached Tor' % what)
+            self.fail('C14.add-onion-count', '%s: %d ADD_ONION commands reached Tor: %r' % (what, len(adds), [_short(a) for a in adds]))
+        entries = tor.add_onion_log[log0:]
+        if len(entries) != 1:
+            raise HarnessError('ADD_ONION received but not processed')
+        entry = entries[0]
+        req = entry['req']
+        if req is None:
+            self.fail('C14.add-onion-malformed', '%s: Tor cannot parse %r: %s' % (what, _short(entry['raw']), entry['error']))
+        # ---- the request, as decoded by the independent parser
+        if (req['ktype'], req['kblob']) != exp_key:
+            self.fail('C14.key-specifier-differs', '%s: key specifier sent %s:%s, expected %s:%s' % (
+                what, req['ktype'], _short(req['kblob']), exp_key[0], _short(exp_key[1])))
+        got_ports = {}
+        for virt, target in req['ports']:
+            if virt in got_ports:
+                self.fail('C14.port-mappings-differ', '%s: virtual port %d mapped twice in %r' % (what, virt, req['ports']))
+            got_ports[virt] = target
+        handed = set(p.port for p in sim.reactor.all_ports if p.interface == '127.0.0.1')
+        bad = sorted(set(got_ports) ^ set(exp_ports))
+        for virt, target in sorted(exp_ports.items()):
+            g = got_ports.get(virt)
+            if g is None:
+                bad.append(virt)
+            elif target is None:
+                host, _, p = g.rpartition(':')
+                if host != '127.0.0.1' or not p.isdigit() or int(p) not in handed:
+                    bad.append(virt)
+            elif g != target:
+                bad.append(virt)
+        if bad:
+            self.fail('C14.port-mappings-differ', '%s: requested %r, Tor was told %r (differing virtual ports %r)' % (
+                what, ports, req['ports'], sorted(set(bad))))
+        exp_flags = set()
+        if c['detach']:
+            exp_flags.add('Detach')
+        if c['keyform'] == 'discard':
+            exp_flags.add('DiscardPK')
+        if c['clients'] is not None:
+            exp_flags.add('BasicAuth')
+        if c['single_hop']:
+            exp_flags.add('NonAnonymous')
+        if set(req['flags']) != exp_flags:
+            self.fail('C14.flags-differ', '%s: flags sent %r, expected %r' % (what, sorted(req['flags']), sorted(exp_flags)))
+        if req['max_streams'] is not None:
+            self.fail('C14.flags-differ', '%s: MaxStreams=%r sent, none requested' % (what, req['max_streams']))
+        exp_clients = sorted((n, b) for n, b in (c['clients'] or []))
+        if sorted(req['clients'], key=lambda x: x[0]) != sorted(exp_clients, key=lambda x: x[0]):
+            self.fail('C14.client-auth-differs', '%s: ClientAuth sent %r, expected %r' % (what, req['clients'], exp_clients))
+        # ---- outcome
+        if entry['error'] is not None:
+            sim.probe('rejected-by-tor')
+            if w.fired and w.ok:
+                self.fail('C14.success-after-rejection', '%s: Tor answered %r but create() succeeded' % (what, entry['error']))
+            return
+        if not w.fired:
+            sim.probe('create-pending')
+            sim.log('create-pending', c['idx'])
+            return
+        if not w.ok:
+            self.fail('C14.create-failed', '%s: Tor accepted the command and confirmed an upload, create() failed: %s: %s' % (
+                what, w.value.type.__name__, w.value.getErrorMessage()[:200]))
+        sim.probe('created')
+        svc = w.value
+        sid = entry['sid']
+        self.observe(c, svc, sid, what, 'when create() fired')
+        # ---- removal
+        rw = Watch(self, 'remove()#%d' % c['idx'])
+        sim.log('op', 'remove', c['idx'])
+        recv1 = len(tor.received)
+        self.expected_del += 1
+        rw.attach(svc.remove())
+        self.run_until(lambda: rw.fired, 200)
+        dels = [l for l in tor.received[recv1:] if l.split(' ', 1)[0].upper() == 'DEL_ONION']
+        if dels != ['DEL_ONION ' + sid]:
+            self.fail('C14.del-onion-differs', '%s: remove() sent %r, expected one DEL_ONION %s' % (what, dels, sid))
+        if not rw.fired or not rw.ok:
+            self.fail('C14.remove-failed', '%s: Tor answered 250 to DEL_ONION, remove() %s' % (
+                what, 'is pending' if not rw.fired else 'failed: ' + rw.value.getErrorMessage()[:120]))
+        sim.probe('removed')
+        self.observe(c, svc, sid, what, 'after remove()')
+
+    def observe(self, c, svc, sid, what, when):
+        from txtorcon.onion import DISCARD
+        sim = self.sim
+        if svc.hostname != sid + '.onion':
+            self.fail('C14.hostname-differs', '%s: hostname %r %s, Tor returned ServiceID=%s' % (what, svc.hostname, when, sid))
+        pk = svc.private_key
+        kf = c['keyform']
+        if kf == 'discard':
+            if pk is not None:
+                self.fail('C14.discarded-key-stored', '%s: private_key is %s %s although discarding was requested' % (
+                    what, 'the DISCARD marker' if pk is DISCARD else _short(repr(pk)), when))
+        elif kf == 'none':
+            gen = self.generated_key(sid, c['version'])
+            if pk != gen:
+                self.fail('C14.generated-key-not-retained', '%s: private_key %s %s, Tor had generated %s' % (
+                    what, _short(repr(pk)), when, _short(gen)))
+            sim.probe('private-key-from-tor')
+        else:
+            given, (kt, blob) = self.key_argument(c)
+            if pk not in (given, kt + ':' + blob):
+                self.fail('C14.callers-key-altered', '%s: private_key %s %s, the caller gave %s' % (
+                    what, _short(repr(pk)), when, _short(given)))
+            sim.probe('private-key-callers')
+        if c['clients'] is not None:
+            names = sorted(svc.client_names())
+            if names != sorted(n for n, _ in c['clients']):
+                self.fail('C14.clients-differ', '%s: clients %r %s, requested %r' % (what, names, when, c['clients']))
+            tor_clients = dict((n, b) for n, b, _ in self.tor_clients.get(sid, []))
+            for n, b in c['clients']:
+                tok = svc.get_client(n).auth_token
+                if tok != tor_clients.get(n):
+                    self.fail('C14.client-token-differs', '%s: client %s has token %r %s, Tor knows %r' % (
+                        what, n, tok, when, tor_clients.get(n)))
+
+    def on_created(self, svc):
+        OnionRun.on_created(self, svc)
+        if not hasattr(self, 'tor_clients'):
+            self.tor_clients = {}
+        self.tor_clients[svc.sid] = list(svc.clients)
+
+    def generated_key(self, sid, version):
+        if version == 2:
+            for blob, s in RSA_KEYS:
+                if s == sid:
+                    return 'RSA1024:' + blob
+        for blob in TOR_V3:
+            if v3_sid(blob) == sid:
+                return 'ED25519-V3:' + blob
+        raise HarnessError('no generated key for %s' % sid)
+
+
+
+# ---------------------------------------------------------------------------
+# C17
+# ---------------------------------------------------------------------------
+
+MUST_FAIL = ('config', 'bind', 'reject', 'uploads-failed', 'disconnect-before-reply')
+
+
+class C17Run(OnionRun):
+
+    def draw_config(self):
+        ch = self.ch
+        c = dict()
+        c['form'] = ['constructor', 'tor-method', 'string'][ch.weighted([4, 4, 2], 'form')]
+        c['valid'] = not ch.chance(1, 8, 'invalid')
+        c['kind'] = ['eph', 'fs'][ch.weighted([3, 2], 'kind')]
+        c['auth'] = ['none', 'basic', 'stealth'][ch.weighted([4, 2, 1], 'auth')]
+        if c['form'] == 'string':
+            c['auth'] = 'none'
+        if c['auth'] == 'stealth':
+            c['kind'] = 'fs'
+        c['version'] = ch.pick([None, 2, 3], 'version')
+        if c['auth'] != 'none' and c['version'] == 3:
+            c['version'] = 2
+        c['key'] = 'none'
+        c['single_hop'] = False
+        if c['kind'] == 'eph':
+            c['key'] = ['none', 'bare', 'prefixed', 'file', 'discard'][ch.weighted([4, 2, 2, 1, 1], 'key')]
+            if c['key'] == 'file' and c['form'] != 'string':
+                c['key'] = 'bare'
+            if c['key'] == 'discard' and (c['form'] == 'string' or c['auth'] != 'none'):
+                c['key'] = 'none'
+            c['single_hop'] = c['auth'] == 'none' and ch.chance(1, 4, 'singlehop')
+        c['dir'] = 'explicit'
+        if c['kind'] == 'fs' and c['form'] == 'constructor' and ch.chance(1, 3, 'implicit'):
+            c['dir'] = 'implicit'
+        c['group_readable'] = c['kind'] == 'fs' and ch.chance(1, 3, 'groupread')
+        c['public_port'] = ch.pick([80, 443, 8080], 'pubport')
+        c['n_clients'] = 1 + ch.draw(2, 'nclients')
+        c['config_mode'] = ['instance', 'fired-deferred', 'pending-deferred'][ch.weighted([2, 1, 2], 'cfgmode')]
+        c['invalid_kind'] = ch.draw(5, 'invalidkind')
+        c['n_dirs'] = 1 + ch.draw(3, 'ndirs')
+        c['early'] = ch.chance(1, 4, 'early')
+        c['n_foreign'] = ch.draw(3, 'nforeign')
+        return c
+
+    def _run(self):
+        sim, ch = self.sim, self.ch
+        self.step_name = self.P.get('fail_step') or 'none'
+        c = self.c = self.draw_config()
+        sim.c17_valid = c['valid']
+        if self.step_name in FAIL_GATES and not sim.gate(FAIL_GATES[self.step_name]):
+            sim.log('skipped', self.step_name)
+            return
+        if not c['valid']:
+            if self.step_name != 'none':
+                return
+            self.run_invalid()
+            return
+        sim.probe('fail:' + self.step_name)
+        sim.probe('form-' + c['form'])
+        sim.probe('ephemeral' if c['kind'] == 'eph' else 'filesystem')
+        sim.probe('auth-' + c['auth'])
+        sim.probe('v2' if c['version'] in (None, 2) else 'v3')
+        if c['kind'] == 'fs':
+            sim.probe('dir-' + c['dir'])
+        if c['key'] not in ('none', 'discard'):
+            sim.probe('key-supplied')
+        if c['single_hop']:
+            sim.probe('single-hop')
+        step = self.step_name
+        tor = self.build_tor()
+        tor.non_anonymous = c['single_hop']
+        tor.early_allowed = c['early'] and step in ('none', 'disconnect-during-wait')
+        self.early_quota = 1 if tor.early_allowed else 0
+        self.reserve_last = True
+        self.g_all_failed = False           # no all-failed prefix unless that is the injected failure
+        self.force_all_failed = step == 'uploads-failed'
+        if self.force_all_failed:
+            self.g_all_failed = True
+        self.hold_resolutions = step == 'disconnect-during-wait'
+        self.reset_done = False
+        self.injected = None
+        rot = ch.draw(5, 'rot')
+        pool = HSDIRS[rot:5] + HSDIRS[:rot]
+        dirs = pool[:c['n_dirs'] + (1 if tor.early_allowed else 0)]
+        outs = [['UPLOADED', 'FAILED'][ch.weighted([3, 1], 'oout')] for _ in dirs]
+        outs[-1] = 'UPLOADED'
+        self.own_plan = self.make_plan('own', None, dirs, outs)
+        v3 = c['version'] == 3
+        f_dirs = (pool[:c['n_foreign']] if c['n_foreign'] else [])
+        if f_dirs:
+            f_out = [['FAILED', 'NONE'][ch.draw(2, 'fout')] for _ in f_dirs] + ['UPLOADED']
+            self.foreign_plan = self.make_plan('foreign', FOREIGN_V3 if v3 else FOREIGN_V2, f_dirs + [HSDIRS[5]], f_out)
+        self.noise_left = ch.draw(2, 'noise')
+        self.segmode = ch.pick(['whole', 'mixed', 'mixed'], 'segmode')
+        if step == 'reject':
+            tor.fail_next['ADD_ONION' if c['kind'] == 'eph' else 'SETCONF'] = err(
+                512 if c['kind'] == 'eph' else 513, 'Unacceptable option value: rejected by the simulated Tor')
+        if step == 'bind':
+            self.injected = error.CannotListenError('127.0.0.1', 0, OSError(98, 'Address already in use'))
+            sim.reactor.listen_fail = self.injected
+        self.hsdir = os.path.join(self.root, 'hs_main') if (c['kind'] == 'fs' and c['dir'] == 'explicit') else None
+        sim.log('op', 'endpoint', c['form'], c['kind'], 'auth-' + c['auth'], 'v%s' % c['version'], 'key-' + c['key'],
+                'single-hop' if c['single_hop'] else '', 'dir-' + c['dir'] if c['kind'] == 'fs' else '', 'fail:' + step)
+        ep = self.build_endpoint()
+        from twisted.internet.protocol import Factory
+        self.listen = Watch(self, 'listen()', on_fire=self.on_listen_fired)
+        sim.add_source(self.hs_actions)
+        sim.add_source(self.fault_actions)
+        self.listen.attach(ep.listen(Factory()))
+        self.after_step()
+        budget = self.P.get('max_steps', 700)
+        n = post = 0
+        while n < budget:
+            if self.listen.fired:
+                post += 1
+                if post > 6:
+                    break
+            if not self.step():
+                break
+            n += 1
+        if step == 'disconnect-before-reply' and self.pending_reset():
+            self.do_reset()
+        self.drain()
+        self.final_checks()
+
+    # ------------------------------------------------------------------------------------------ endpoint construction
+    def auth_object(self):
+        from txtorcon.onion import AuthBasic, AuthStealth
+        c = self.c
+        names = CLIENT_NAMES[:c['n_clients']]
+        if c['auth'] == 'basic':
+            return AuthBasic(names)
+        if c['auth'] == 'stealth':
+            return AuthStealth(names)
+        return None
+
+    def key_value(self):
+        from txtorcon.onion import DISCARD
+        c = self.c
+        v3 = c['version'] == 3
+        blob = USER_V3[0] if v3 else RSA_KEYS[USER_RSA[0]][0]
+        prefix = 'ED25519-V3:' if v3 else 'RSA1024:'
+        if c['key'] == 'none':
+            return None
+        if c['key'] == 'discard':
+            return DISCARD
+        if c['key'] == 'bare':
+            return blob
+        return prefix + blob
+
+    def build_endpoint(self):
+        from txtorcon.endpoints import TCPHiddenServiceEndpoint
+        sim, ch, c, step = self.sim, self.ch, self.c, self.step_name
+        if c['form'] == 'string':
+            return self.build_from_string()
+        self.boot()
+        self.conn.seg_mode = self.segmode
+        if c['form'] == 'tor-method':
+            if step == 'config':
+                self.tor.fail_next['GETINFO'] = err(551, 'Internal error')
+            elif ch.chance(1, 2, 'prefetch'):
+                self.boot_config()
+            t = self.tor_obj
+            if c['kind'] == 'eph' and c['auth'] == 'none':
+                return t.create_onion_endpoint(c['public_port'], private_key=self.key_value(), version=c['version'],
+                                               single_hop=c['single_hop'] or None)
+            if c['kind'] == 'eph':
+                return t.create_authenticated_onion_endpoint(c['public_port'], self.auth_object(), private_key=self.key_value(),
+                                                             version=c['version'])
+            if c['auth'] == 'none':
+                return t.create_filesystem_onion_endpoint(c['public_port'], self.hsdir, group_readable=c['group_readable'],
+                                                          version=c['version'])
+            return t.create_filesystem_authenticated_onion_endpoint(c['public_port'], self.hsdir, self.auth_object(),
+                                                                    group_readable=c['group_readable'], version=c['version'])
+        # constructor: the configuration is an instance, a Deferred that has fired, or one that fires later
+        if step == 'config':
+            self.injected = RuntimeError('configuration unavailable (injected)')
+            if c['config_mode'] == 'pending-deferred':
+                cfg = defer.Deferred()
+                self.config_later = ('err', cfg)
+                sim.probe('config-deferred-pending')
+            else:
+                cfg = defer.fail(self.injected)
+        else:
+            self.boot_config()
+            if c['config_mode'] == 'instance':
+                cfg = self.config
+            elif c['config_mode'] == 'fired-deferred':
+                cfg = defer.succeed(self.config)
+            else:
+                cfg = defer.Deferred()
+                self.config_later = ('ok', cfg)
+                sim.probe('config-deferred-pending')
+        kw = dict(version=c['version'])
+        if c['kind'] == 'eph':
+            kw.update(private_key=self.key_value(), single_hop=c['single_hop'] or None)
+            if ch.chance(1, 2, 'ephflag'):
+                kw['ephemeral'] = True
+        else:
+            kw.update(hidden_service_dir=self.hsdir, group_readable=c['group_readable'])
+            if self.hsdir is None or ch.chance(1, 2, 'ephflag'):
+                kw['ephemeral'] = False
+        if c['auth'] == 'stealth' and ch.chance(1, 2, 'oldstealth'):
+            kw['stealth_auth'] = CLIENT_NAMES[:c['n_clients']]
+        elif c['auth'] != 'none':
+            kw['auth'] = self.auth_object()
+        ep = TCPHiddenServiceEndpoint(sim.reactor, cfg, c['public_port'], **kw)
+        if self.hsdir is None and c['kind'] == 'fs':
+            self.hsdir = ep.hidden_service_dir
+        return ep
+
+    config_later = None
+
+    def string_description(self, extra=()):
+        from twisted.internet.endpoints import quoteStringArgument as q
+        c = self.c
+        parts = ['onion', str(c['public_port']), 'controlPort=9051']
+        if c['kind'] == 'fs':
+            parts.append('hiddenServiceDir=' + q(self.hsdir))
+        if c['key'] == 'file':
+            path = os.path.join(self.root, 'service.key')
+            with open(path, 'w') as f:
+                f.write(('ED25519-V3:' + USER_V3[0]) if c['version'] == 3 else ('RSA1024:' + RSA_KEYS[USER_RSA[0]][0]))
+                f.write('\n')
+            parts.append('privateKeyFile=' + q(path))
+        elif c['key'] != 'none':
+            parts.append('privateKey=' + q(self.key_value()))
+        if c['version'] is not None:
+            parts.append('version=%d' % c['version'])
+        if c['single_hop']:
+            parts.append('singleHop=true')
+        parts.extend(extra)
+        return ':'.join(parts)
+
+    def accept(self, dest):
+        self.sim.add_source(self.tor.actions)
+        return self.tor
+
+    def build_from_string(self):
+        from twisted.internet.endpoints import serverFromString
+        sim = self.sim
+        if self.step_name != 'config':
+            sim.net.listen('tcp', 9051, self.accept)
+        desc = self.string_description()
+        sim.log('op', 'serverFromString', _short(desc))
+        return serverFromString(sim.reactor, desc)
+
+    @property
+    def live_conn(self):
+        return self.tor.conn
+
+    # ------------------------------------------------------------------------------------------ invalid combinations
+    def run_invalid(self):
+        from txtorcon.endpoints import TCPHiddenServiceEndpoint
+        from txtorcon.onion import AuthBasic, AuthStealth
+        from twisted.internet.endpoints import serverFromString
+        sim, c = self.sim, self.c
+        sim.probe('invalid-combination')
+        self.build_tor()
+        k = c['invalid_kind']
+        wire0 = None
+        if c['form'] != 'string':
+            self.boot()
+            self.boot_config()
+            self.drain()
+            sim.draining = False
+            wire0 = (len(self.tor.received), len(self.conn.transport.written))
+        ports0, connects0 = len(sim.reactor.all_ports), len(sim.reactor.connect_log)
+        hsdir = os.path.join(self.root, 'hs_main')
+        try:
+            if c['form'] == 'constructor':
+                what, kw = [
+                    ('ephemeral=True with stealth authentication', dict(ephemeral=True, auth=AuthStealth(['alice']))),
+                    ('ephemeral=True with hidden_service_dir', dict(ephemeral=True, hidden_service_dir=hsdir)),
+                    ('private_key for a filesystem service', dict(hidden_service_dir=hsdir, private_key=RSA_KEYS[USER_RSA[0]][0])),
+                    ('single_hop for a filesystem service', dict(hidden_service_dir=hsdir, single_hop=True)),
+                    ('both stealth_auth= and auth=', dict(hidden_service_dir=hsdir, stealth_auth=['alice'], auth=AuthBasic(['bob']))),
+                ][k]
+                sim.log('op', 'invalid', c['form'], what)
+                TCPHiddenServiceEndpoint(sim.reactor, self.config, c['public_port'], **kw)
+            elif c['form'] == 'tor-method':
+                what = 'create_authenticated_onion_endpoint with stealth authentication'
+                sim.log('op', 'invalid', c['form'], what)
+                self.tor_obj.create_authenticated_onion_endpoint(c['public_port'], AuthStealth(['alice', 'bob']))
+            else:
+                self.hsdir = hsdir
+                what, extra, base = [
+                    ('hiddenServiceDir with privateKey', ['privateKey=' + USER_V3[0].rstrip('=')], dict(kind='fs')),
+                    ('version=4', ['version=4'], dict(version=None)),
+                    ('version=three', ['version=three'], dict(version=None)),
+                    ('singleHop=maybe', ['singleHop=maybe'], dict(single_hop=False)),
+                    ('privateKey with privateKeyFile', ['privateKeyFile=/nonexistent/key'], dict(kind='eph', key='bare', version=3)),
+                ][k]
+                c.update(base)
+                if c['kind'] == 'fs':
+                    c['key'] = 'none'
+                    c['single_hop'] = c['single_hop'] and False
+                sim.net.listen('tcp', 9051, self.accept)
+                desc = self.string_description(extra)
+                sim.log('op', 'invalid', c['form'], what, _short(desc))
+                serverFromString(sim.reactor, desc)
+        except ValueError as e:
+            sim.log('refused', type(e).__name__, str(e)[:100])
+        else:
+            self.fail('C17.invalid-combination-accepted', 'the invalid option combination "%s" (%s form) was not refused' % (what, c['form']))
+        touched = []
+        if len(sim.reactor.all_ports) != ports0:
+            touched.append('a listening port was opened')
+        if len(sim.reactor.connect_log) != connects0:
+            touched.append('a connection was started')
+        if wire0 is not None and (len(self.tor.received), len(self.conn.transport.written)) != wire0:
+            touched.append('something was written to the control connection')
+        if touched:
+            self.fail('C17.invalid-combination-touched-something',
+                      'the invalid option combination "%s" (%s form) was refused, but before that %s' % (what, c['form'], ' and '.join(touched)))
+
+    # ------------------------------------------------------------------------------------------ faults
+    def on_received(self, line):
+        OnionRun.on_received(self, line)
+        if self.step_name == 'disconnect-before-reply' and OnionTor.is_creating(line):
+            self.tor.hold = True
+
+    def pending_reset(self):
+        if self.reset_done or self.tor.conn is None or self.tor.conn.client_gone:
+            return False
+        if self.step_name == 'disconnect-before-reply':
+            return self.tor.hold
+        if self.step_name == 'disconnect-during-wait':
+            return self.reply_code == 250 and self.reply_delivered()
+        return False
+
+    def do_reset(self):
+        self.reset_done = True
+        self.hold_resolutions = False
+        self.sim.fault('control-connection-lost')
+        self.sim.log('fault', 'reset')
+        self.tor.conn.reset()
+
+    def fault_actions(self):
+        acts = []
+        if self.pending_reset():
+            acts.append((8, 'fault:reset', self.do_reset))
+        if self.config_later is not None:
+            acts.append((3, 'config-deferred-fires', self.fire_config))
+        return acts
+
+    def fire_config(self):
+        how, d = self.config_later
+        self.config_later = None
+        self.sim.log('config-deferred', how)
+        if how == 'ok':
+            d.callback(self.config)
+        else:
+            d.errback(Failure(self.injected))
+
+    # ------------------------------------------------------------------------------------------ oracle
+    def mapping_sent(self):
+        """what the simulated Tor was asked to forward: list of (virt, target) of the service it created"""
+        c = self.c
+        if c['kind'] == 'eph':
+            good = [e for e in self.tor.add_onion_log if e['sid'] is not None]
+            return [p for e in good for p in e['req']['ports']], len(self.tor.add_onion_log)
+        groups = [e['groups'] for e in self.tor.setconf_hs_log if e['groups'] is not None]
+        if not groups:
+            return [], 0
+        want = os.path.realpath(self.hsdir)
+        return [p for g in groups[-1] if os.path.realpath(g['dir']) == want for p in g['ports']], len(self.tor.setconf_hs_log)
+
+    def on_listen_fired(self, w):
+        sim, c, step = self.sim, self.c, self.step_name
+        what = '%s form, %s, auth %s, fault: %s' % (c['form'], 'ephemeral' if c['kind'] == 'eph' else 'filesystem', c['auth'], step)
+        if not w.ok:
+            return
+        if step in MUST_FAIL:
+            self.fail('C17.success-despite-' + step, 'listen() succeeded although the injected failure "%s" makes it impossible (%s)' % (step, what))
+        open_ports = list(sim.reactor.ports)
+        if len(open_ports) != 1 or len(sim.reactor.all_ports) != 1:
+            self.fail('C17.not-exactly-one-listener', 'listen() succeeded with %d open local listeners (%d ever opened) (%s)' % (
+                len(open_ports), len(sim.reactor.all_ports), what))
+        lp = open_ports[0]
+        if lp.interface != '127.0.0.1':
+            self.fail('C17.listener-not-loopback', 'the local listener is bound to %r, not to 127.0.0.1 (%s)' % (lp.interface, what))
+        mapping, ncmds = self.mapping_sent()
+        ok_targets = ('127.0.0.1:%d' % lp.port, str(lp.port))
+        if len(mapping) != 1 or mapping[0][0] != c['public_port'] or mapping[0][1] not in ok_targets:
+            self.fail('C17.port-mapping-differs', 'Tor was asked to forward %r; expected exactly public port %d -> 127.0.0.1:%d (%s)' % (
+                mapping, c['public_port'], lp.port, what))
+        if ncmds != 1:
+            self.fail('C17.creating-command-count', '%d creating commands were sent for one listen() (%s)' % (ncmds, what))
+        if self.reply_code != 250 or not self.reply_delivered() or not self.upload_condition():
+            d = self.foreign_uploaded_on_own_dir()
+            self.fail('C17.resolved-before-descriptor-upload',
+                      'listen() resolved before the service existed and an upload of its descriptor was confirmed '
+                      '(reply %r delivered: %s; own UPLOADED delivered: %s%s) (%s)' % (
+                          self.reply_code, self.reply_delivered(), self.upload_condition(),
+                          '; a foreign UPLOADED on a shared directory was delivered' if d else '', what))
+        port = w.value
+        try:
+            host = port.getHost()
+            uri, oport = host.onion_uri, host.onion_port
+        except Exception as e:
+            self.fail('C17.address-unavailable', 'getHost() of the result raised %s: %s (%s)' % (type(e).__name__, e, what))
+        svc = self.own_svc
+        if c['auth'] == 'none':
+            hosts = set([svc.sid + '.onion'])
+        elif c['kind'] == 'eph':
+            hosts = set([svc.sid + '.onion'])
+        else:
+            hosts = set(svc.client_hosts.values())
+        if oport != c['public_port']:
+            self.fail('C17.address-differs', 'getHost() reports public port %r, expected %d (%s)' % (oport, c['public_port'], what))
+        if len(hosts) == 1 and uri != list(hosts)[0]:
+            self.fail('C17.address-differs', 'getHost() reports %r, Tor assigned %s (%s)' % (uri, list(hosts)[0], what))
+        sim.probe('listen-success')
+        sim.log('op', 'stopListening')
+        port.stopListening()
+        if lp in sim.reactor.ports or lp.listening:
+            self.fail('C17.stop-listening-leaves-listener', 'stopListening() of the result left the local listener on port %d open (%s)' % (lp.port, what))
+        sim.probe('stop-listening')
+
+    def final_checks(self):
+        sim, c, step = self.sim, self.c, self.step_name
+        w = self.listen
+        what = '%s form, %s, auth %s, fault: %s' % (c['form'], 'ephemeral' if c['kind'] == 'eph' else 'filesystem', c['auth'], step)
+        self.timing_probe()
+        if not w.fired:
+            if step in MUST_FAIL:
+                self.fail('C17.listen-pending-after-' + step, 'listen() is still pending at quiescence after the injected failure (%s)' % what)
+            no_pre = not any(e.tag == 'own' and not e.post for e in self.events)
+            if step == 'none' and self.reply_code == 250 and no_pre and self.upload_condition():
+                self.fail('C17.listen-pending-after-upload', 'listen() is still pending at quiescence although the service exists and '
+                          'an UPLOADED event of it was delivered after the reply (%s)' % what)
+            sim.log('listen-pending', step)
+            return
+        if w.ok:
+            return
+        f = w.value
+        err_s = '%s: %s' % (f.type.__name__, f.getErrorMessage()[:140])
+        if step == 'none':
+            self.fail('C17.listen-failed-without-fault', 'listen() failed (%s) although nothing was made to fail (%s)' % (err_s, what))
+        expected = None
+        if step in ('config', 'bind') and self.injected is not None:
+            if f.value is not self.injected:
+                expected = 'the injected %s' % type(self.injected).__name__
+        elif step == 'config':
+            want = 'ConnectionRefusedError' if c['form'] == 'string' else 'TorProtocolError'
+            if f.type.__name__ != want:
+                expected = want
+        elif step == 'reject':
+            if f.type.__name__ != 'TorProtocolError':
+                expected = 'TorProtocolError'
+        elif step == 'uploads-failed':
+            if not self.failure_condition():
+                expected = 'a failure only after every upload had failed'
+        elif step.startswith('disconnect'):
+            if f.type.__name__ != 'TorDisconnectError':
+                expected = 'TorDisconnectError'
+        if expected is not None:
+            self.fail('C17.wrong-error-' + step, 'listen() failed with %s, expected %s (%s)' % (err_s, expected, what))
+        if sim.reactor.ports:
+            self.fail('C17.listener-leaked-on-failure-' + step,
+                      'listen() failed (%s) and left its local listener open: %r (%s)' % (
+                          err_s, [(p.interface, p.port) for p in sim.reactor.ports], what))
+
+
+def variants(base_sim, params):
+    """C17: the same drawn configuration with one failure injected at each step of listen()"""
+    if base_sim.prop != 'C17' or params.get('fail_step') is not None:
+        return []
+    if not getattr(base_sim, 'c17_valid', False):
+        return []
+    return [{'fail_step': s} for s in FAIL_STEPS if s not in FAIL_GATES or base_sim.gate(FAIL_GATES[s])]
 
 
 def run(sim):
